@@ -9,7 +9,7 @@ Correspondence
   (1c) py_cmdline (the specification of CPython's argv grammar the theorems use) == what /venv/bin/python
        really does with the same argv (which program ran, from which line, REPL afterwards or not).
 Implementation-level oracle = ground truth (model-free)
-  (2)  every script the real classify() approves is executed by a child `/venv/bin/python -I -S` whose audit
+  (2)  every script the real classify() approves is executed by a child `/venv/bin/python -I` whose audit
        hook records and vetoes open / os.* / subprocess.* / socket.* / ctypes.* / exec / compile / import of a
        module outside the handler's own SAFE_MODULES: an approved script that raises one is a violation,
        reported by access path with a shrunk script.
@@ -42,18 +42,21 @@ LEVEL = "proof"
 TRUSTED = [
     "Coq 8.16.1 kernel and its VM (vm_compute for closed facts over the generated tables and for the refutation witnesses)",
     "axioms: none (every theorem of Props/C17.v prints 'Closed under the global context')",
-    "tools/gen_tables.py + tools/tables/t17_python.py (Python-ast translator of SAFE_MODULES, DANGEROUS_*, REFLECTION_ATTRS, SAFE_FLAGS, FLAGS_WITH_ARG, the -c/-m tuples, the list of visit_ methods)",
+    "tools/gen_tables.py + tools/tables/t17_python.py (Python-ast translator of SAFE_MODULES, DANGEROUS_*, REFLECTION_ATTRS, ESCAPE_ATTRS, _KNOWN_OPTIONS, _INFO_OPTIONS, _SHORT_WITH_ARG, the list of visit_ methods; asserts the literal tests of _scan_options / classify that the model writes out by hand)",
     "extraction: ExtrOcamlBasic only; OCaml 4.13.1; ocaml/driver.ml; cross-checked in Coq by vm_compute on a sample",
     "harness: reflective dumper of Python's ast (harness/c17.py dump: class name, _fields order, str fields, node / list-of-node fields), script generator harness/pygen.py, audit child harness/c17_child.py",
+    "the visitor's _called_names set is modelled as one bit of context (the node is the Name in the func field of the Call directly above): exact for tree-shaped ASTs without shared node objects (ast.parse output)",
     "C17_visitor hypothesis global_leaf: Global nodes have no node-valued field (checked on every run: ast.Global._fields == ('names',) and no dumped Global node has kids)",
-    "modelled, not verified: ast.parse supplies the tree; Path.resolve and analyze_python_file's file checks (exists / is_file / suffix / size / read_text utf-8) are oracles answered by the real code; reason texts and descriptions are not modelled",
+    "modelled, not verified: ast.parse supplies the tree; Path.resolve, the calendar.py/calendar shadow test, the sibling test and analyze_python_file's file checks (exists / is_file / suffix / size / read_bytes) are oracles answered by the real code; reason texts and descriptions are not modelled",
     "specification py_cmdline = CPython 3.12 argv grammar (Python/getopt.c, config_parse_cmdline), validated against /venv/bin/python on generated argv (coverage.cmdline_spec_vs_cpython); -W/-X values are not validated by the spec",
     "runtime inertness is NOT proved (no Gallina model of CPython): it is decided by execution under an audit hook for the generated scripts only; events raised while a library module initialises itself during import are not attributed to the script (counted in coverage.inertness.import_time_events)",
 ]
 
 KIND_OF_VK = {
     "import-dangerous": "import", "import-unknown": "import", "import-relative": "import",
-    "builtin": "builtin", "method": "method", "reflection-attr": "reflection", "reflection-name": "reflection",
+    "import-name": "import", "import-shadow": "import",
+    "builtin": "builtin", "method": "method", "reflection-attr": "reflection", "reflection-escape": "reflection",
+    "reflection-name": "reflection",
     "async-def": "async", "await": "async", "io": "io",
 }
 
@@ -235,7 +238,7 @@ def compare_visit(model_list, impl_list, raised):
 
 def run_child(path, cwd, safe_csv, timeout=5):
     try:
-        p = subprocess.run([PY, "-I", "-S", CHILD, path, safe_csv], cwd=cwd, stdin=subprocess.DEVNULL,
+        p = subprocess.run([PY, "-I", CHILD, path, safe_csv], cwd=cwd, stdin=subprocess.DEVNULL,
                            stdout=subprocess.DEVNULL, stderr=subprocess.PIPE, timeout=timeout,
                            env={"PATH": "/usr/bin:/bin", "HOME": cwd, "LANG": "C.UTF-8"})
     except subprocess.TimeoutExpired:
@@ -247,6 +250,30 @@ def run_child(path, cwd, safe_csv, timeout=5):
             except ValueError:
                 break
     return {"events": [], "end": f"no-report rc={p.returncode}"}
+
+
+class ModelProxy:
+    """the extracted model; when the PyArgs entry did not build (broken tie / proof) every call answers
+    None and the correspondences are skipped - the implementation-level oracles still run"""
+
+    def __init__(self):
+        self.m = lib.Model()
+        self.available = True
+        probe = self.m.call(["py_scan", []])
+        if isinstance(probe, str) and probe.startswith("?"):
+            self.available = False
+        self.transcript = None
+        self.last_request = None
+
+    def call(self, req, oracles=None, record=False):
+        if not self.available:
+            return None
+        r = self.m.call(req, oracles, record)
+        self.transcript, self.last_request = self.m.transcript, self.m.last_request
+        return r
+
+    def close(self):
+        self.m.close()
 
 
 class Scratch:
@@ -539,7 +566,7 @@ def run(tier, seed, replay=None):
     out = core.Outcome("C17")
     scratch = Scratch()
     old_cwd = os.getcwd()
-    model = lib.Model()
+    model = ModelProxy()
     xcheck = []
     safe_csv = ",".join(sorted(H.SAFE_MODULES))
     inert_cov = {"approved_and_executed": 0, "approved_raising_event": 0, "by_access_path": {}, "events": {},
@@ -555,6 +582,7 @@ def run(tier, seed, replay=None):
             out.disagreements.append({"correspondence": "hypothesis global_leaf <-> Python's ast", "detail": repr(ast.Global._fields)})
         visit_methods = sorted(n[6:] for n in vars(H.SafetyAnalyzer) if n.startswith("visit_"))
         out.extra["python"] = sys.version.split()[0]
+        out.extra["model_available"] = model.available
         out.extra["visit_methods"] = visit_methods
 
         # =================================================================== scripts
@@ -567,7 +595,7 @@ def run(tier, seed, replay=None):
         elif not replay:
             chain, chain_stats = pygen.chain_scripts(H.SAFE_MODULES, per_target=3 if tier == "quick" else 12)
             out.extra["module_attribute_paths_found"] = chain_stats
-            pool = pygen.alias_scripts() + chain + pygen.string_indirection_scripts()
+            pool = pygen.alias_scripts() + chain + pygen.string_indirection_scripts() + pygen.residual_scripts()
             scripts = pygen.direct_scripts() + pool + pygen.file_level_scripts()
             scripts += pygen.random_scripts(rng, 500 if tier == "quick" else 6000, pool, max_depth=3 if tier == "quick" else 4)
         kinds_seen = {}
@@ -576,28 +604,38 @@ def run(tier, seed, replay=None):
             fam = s.family.split("/")[0] if not s.family.startswith("random/") else "random/" + s.family.split("/")[1]
             out.count("script_family", fam)
             tree = None
-            if s.raw is None:
-                try:
-                    tree = ast.parse(s.text)
-                except (SyntaxError, ValueError):
-                    tree = None
+            src_bytes = s.raw if s.raw is not None else s.text.encode("utf-8", "surrogatepass")
+            try:
+                tree = ast.parse(src_bytes)     # bytes: the PEP 263 cookie is honoured, as analyze_python_file does
+            except (SyntaxError, ValueError):
+                tree = None
             if tree is not None:
                 # (1a) model visitor == SafetyAnalyzer on the same tree
                 for ap in ((True, False) if idx % 5 == 0 else (True,)):
                     il, raised = impl_visit(H, tree, ap)
                     if raised == "RecursionError":
                         continue
-                    rec = len(xcheck) < 14 and idx % 97 == 3 and len(s.text) < 120
+                    rec = len(xcheck) < 14 and idx % 97 == 3 and len(src_bytes) < 120
                     ml = model.call(["py_visit", ap, dump(tree, kinds_seen)], record=rec)
-                    if rec:
+                    if rec and ml is not None:
                         xcheck.append((model.last_request, [], ml))
                     out.case(("visit", s.text, ap))
-                    if not compare_visit(ml, il, raised):
-                        out.disagreements.append({"correspondence": "PyArgs.visit <-> SafetyAnalyzer.visit", "script": s.text,
+                    if ml is not None and not compare_visit(ml, il, raised):
+                        out.disagreements.append({"correspondence": "PyArgs.visit <-> SafetyAnalyzer.visit", "script": s.text or repr(s.raw),
                                                   "allow_print": ap, "model": ml, "impl": il, "raised": raised})
                     # analyze_python_source is the same visitor behind ast.parse
-                    if ap and [(v.kind, v.detail) for v in H.analyze_python_source(s.text)] != il:
+                    if ap and [(v.kind, v.detail) for v in H.analyze_python_source(src_bytes)] != il:
                         out.disagreements.append({"correspondence": "analyze_python_source <-> SafetyAnalyzer.visit", "script": s.text})
+                # analyze_python_source with base: the sibling check over imported_roots
+                if s.siblings or idx % 11 == 0:
+                    names = {n.split("/")[0] for n, _ in s.siblings}
+                    sib = lambda r: (r + ".py") in names or r in names   # noqa: E731
+                    d0 = scratch.script_dir(s)
+                    isrc = [(v.kind, v.detail) for v in H.analyze_python_source(src_bytes, True, Path(d0))]
+                    msrc = model.call(["py_source", True, dump(tree)], {"py_sibling": sib})
+                    if msrc is not None and not compare_visit(msrc, isrc, None):
+                        out.disagreements.append({"correspondence": "PyArgs.source_viols <-> analyze_python_source(base=...)",
+                                                  "script": s.text, "siblings": [n for n, _ in s.siblings], "model": msrc, "impl": isrc})
             to_run.append(s)
         if kinds_seen.get("!global-with-kids"):
             out.disagreements.append({"correspondence": "hypothesis global_leaf <-> dumped trees", "count": kinds_seen["!global-with-kids"]})
@@ -723,11 +761,11 @@ def run(tier, seed, replay=None):
                 d = dump(t)
                 rec = len(xcheck) < 26 and i % 37 == 5 and len(json.dumps(d)) < 900
                 ml = model.call(["py_visit", ap, d], record=rec)
-                if rec:
+                if rec and ml is not None:
                     xcheck.append((model.last_request, [], ml))
                 out.case(("tree", json.dumps(d), ap))
                 out.count("malformed_tree", "raise" if raised else ("violations" if il else "clean"))
-                if not compare_visit(ml, il, raised):
+                if ml is not None and not compare_visit(ml, il, raised):
                     out.disagreements.append({"correspondence": "PyArgs.visit <-> SafetyAnalyzer.visit (hand-built tree)",
                                               "tree": d, "allow_print": ap, "model": ml, "impl": il, "raised": raised})
 
@@ -737,7 +775,8 @@ def run(tier, seed, replay=None):
                 return [str(Path(p).resolve())]
             except (ValueError, OSError):
                 return []
-        oracles = {"py_resolve": res, "py_analyze": lambda p: H.analyze_python_file(Path(p))[0]}
+        oracles = {"py_resolve": res, "py_analyze": lambda p: H.analyze_python_file(Path(p))[0],
+                   "py_shadow": lambda c: (Path(c) / "calendar.py").exists() or (Path(c) / "calendar").is_dir()}
         if replay and replay.get("tokens") is not None:
             tls = [(replay["tokens"], "replay")]
         elif replay:
@@ -758,32 +797,29 @@ def run(tier, seed, replay=None):
                 impl = "exn"
             rec = len(xcheck) < 44 and idx % 41 == 7
             mv = model.call(["py_classify", [work], decoy, toks], oracles, record=rec)
-            if rec and model.transcript is not None:
+            if rec and mv is not None and model.transcript is not None:
                 xcheck.append((model.last_request, list(model.transcript), mv))
             out.case(("cmdline", toks))
             out.count("cmdline_verdict", impl)
-            if mv != impl:
+            if mv is not None and mv != impl:
                 out.disagreements.append({"correspondence": "PyArgs.classify <-> python.classify", "tokens": toks, "model": mv, "impl": impl, "cwd": work})
             # ctx.cwd = None falls back to the process cwd (the decoy)
             if idx % 9 == 0:
                 impl_n = H.classify(HandlerContext(list(toks))).action
                 mv_n = model.call(["py_classify", [], decoy, toks], oracles)
-                if mv_n != impl_n:
+                if mv_n is not None and mv_n != impl_n:
                     out.disagreements.append({"correspondence": "PyArgs.classify <-> python.classify (ctx.cwd None)", "tokens": toks, "model": mv_n, "impl": impl_n})
-            if idx % 3 == 0 and not (hasattr(H, "_own_options") and hasattr(H, "_find_script_path")):
+            if idx % 3 == 0 and not hasattr(H, "_scan_options"):
                 if not out.extra.get("helpers_missing"):
                     out.extra["helpers_missing"] = True
-                    out.disagreements.append({"correspondence": "PyArgs.own_tail/find_script_at <-> _own_options/_find_script_path",
-                                              "detail": "the handler no longer defines these functions"})
-            elif idx % 3 == 0:
-                own_i = H._own_options(list(toks))[1:]
-                own_m = model.call(["py_own", toks[1:]])
-                pi, ii = H._find_script_path(list(toks), Path(work))
-                fm = model.call(["py_find", toks[1:]])
-                fi = [] if pi is None else [["1" * ii, toks[ii]]]
-                if own_i != own_m or fi != fm:
-                    out.disagreements.append({"correspondence": "PyArgs.own_tail/find_script_at <-> _own_options/_find_script_path",
-                                              "tokens": toks, "model": [own_m, fm], "impl": [own_i, fi]})
+                    out.disagreements.append({"correspondence": "PyArgs.scan <-> _scan_options",
+                                              "detail": "the handler no longer defines _scan_options"})
+            elif idx % 3 == 0 and toks:
+                seen_i, idx_i, mode_i, arg_i = H._scan_options(list(toks))
+                sm = model.call(["py_scan", toks[1:]])
+                si = [sorted(seen_i), "1" * idx_i, [] if mode_i is None else [mode_i], [] if arg_i is None else [arg_i]]
+                if sm is not None and [sorted(set(sm[0]))] + sm[1:] != si:
+                    out.disagreements.append({"correspondence": "PyArgs.scan <-> _scan_options", "tokens": toks, "model": sm, "impl": si})
             # the decision the hook would take: the whole analyzer when the tokens need no quoting
             full = None
             if all(PLAIN_TOKEN.match(t) for t in toks):
@@ -861,12 +897,13 @@ def run(tier, seed, replay=None):
         for toks, decision, want_real, rc, so, se, can in real_results:
             obs = observe(rc, so, se)
             spec = model.call(["py_cmdline", toks])
-            exp = predict(spec, toks, work)
+            exp = predict(spec, toks, work) if spec is not None else None
             if exp is None:
                 spec_unknown += 1
             else:
                 spec_checked += 1
-                if obs != exp and not ("other" in obs and spec[0] in ("file", "module")):   # missing file / module not importable (-I, -P)
+                unimportable = spec[0] == "module" and obs.get("ran") == exp["ran"][1:] and not obs.get("l1")   # -I / -P: cwd not on sys.path
+                if obs != exp and not unimportable and not ("other" in obs and spec[0] in ("file", "module")):   # missing file / module
                     spec_mismatch += 1
                     out.disagreements.append({"correspondence": "py_cmdline (specification) <-> /venv/bin/python", "tokens": toks,
                                               "spec": spec, "expected": exp, "observed": obs})
@@ -882,7 +919,7 @@ def run(tier, seed, replay=None):
             if sig in seen_cmd_sig:
                 continue
             seen_cmd_sig.add(sig)
-            spec = model.call(["py_cmdline", toks])
+            spec = model.call(["py_cmdline", toks]) or ["?"]
             out.violations.append({
                 "kind": "cmdline",
                 "what": f"approved command line executes code that was not analysed ({', '.join(can)} written); CPython: {spec[0]}",
